@@ -177,3 +177,12 @@ Print Assumptions C19_platform_open_args_illtyped.
 Print Assumptions C19_options_are_source.
 Print Assumptions C19_option_loops_are_source.
 Print Assumptions C19_pass_first_failed.
+
+(* every test that the translated functions of this property make is one the environments of their
+   ties were written for: a test that is new in the source breaks this (an unknown equality would
+   otherwise evaluate to false without notice) *)
+From Scrapli Require Import DecideLang GeneratedSkel OptionsSrcOk.
+Theorem C19_source_tests_known :
+  tests_known (flat_map (fun e => snd e) GeneratedSkel.option_code) options_known = true.
+Proof. exact options_tests_known. Qed.
+Print Assumptions C19_source_tests_known.
